@@ -2,7 +2,7 @@
 
 use crate::engine::*;
 use crate::ensure;
-use crate::pat::{encode_with, Rec};
+use crate::pat::{encode_with, Rec, LATE_MDC, LATE_MDC_PIECE};
 use log4rs::encode::json::JsonEncoder;
 use proptest::prelude::*;
 use serde::{Deserialize, Serialize};
@@ -286,6 +286,10 @@ pub struct Case {
     /// key/value boundary moved by one character
     #[serde(default)]
     pub prior_shifted_mdc: bool,
+    /// (records with an empty MDC only) the first message argument inserts an MDC entry while it is being formatted:
+    /// the line is one well-formed object all the same, with the entry inside `mdc` or not at all
+    #[serde(default)]
+    pub late_mdc: bool,
 }
 
 /// The encoder by one of its public routes.
@@ -313,9 +317,9 @@ pub fn strategy() -> impl Strategy<Value = Case> {
         prop::option::weighted(0.3, jtext().prop_filter("thread names cannot hold NUL", |s| !s.contains('\0'))),
         crate::pat::write_script(),
         prop::bool::weighted(0.1),
-        (prop::option::weighted(0.25, prop_oneof![Just(0usize), 1usize..40, 100usize..2000]), 0u8..3, prop::bool::weighted(0.3)),
+        (prop::option::weighted(0.25, prop_oneof![Just(0usize), 1usize..40, 100usize..2000]), 0u8..3, prop::bool::weighted(0.3), prop::bool::weighted(0.3)),
     )
-        .prop_map(|((level, msg, target, module, file, line, mdc), thread, script, unnamed_thread, (prior_failure, ctor, prior_shifted_mdc))| Case {
+        .prop_map(|((level, msg, target, module, file, line, mdc), thread, script, unnamed_thread, (prior_failure, ctor, prior_shifted_mdc, late_mdc))| Case {
             rec: Rec { level, msg, target, module, file, line, mdc },
             thread,
             script,
@@ -323,6 +327,7 @@ pub fn strategy() -> impl Strategy<Value = Case> {
             prior_failure,
             ctor,
             prior_shifted_mdc,
+            late_mdc,
         })
 }
 
@@ -350,7 +355,16 @@ impl std::io::Write for FailW {
 impl log4rs::encode::Write for FailW {}
 
 fn check_on_thread(case: &Case, obs: &mut Obs, thread_name: Option<&str>) -> CaseResult {
-    let rec = &case.rec;
+    let late = case.late_mdc && case.rec.mdc.is_empty();
+    let with_late;
+    let rec = if late {
+        let mut r = case.rec.clone();
+        r.msg.insert(0, LATE_MDC_PIECE.to_string());
+        with_late = r;
+        &with_late
+    } else {
+        &case.rec
+    };
     let enc = make_json_encoder(case.ctor).map_err(|e| Failure { sig: "C12:constructor".into(), msg: format!("the json encoder could not be built by route {}: {}", case.ctor % 3, e) })?;
     let enc = &*enc;
     if let Some(k) = case.prior_failure {
@@ -390,6 +404,9 @@ fn check_on_thread(case: &Case, obs: &mut Obs, thread_name: Option<&str>) -> Cas
     if let Err(e) = res {
         return fail("C12:encode-error", format!("encode returned Err: {}", e));
     }
+    // the JSON encoder has no business with styles: on a colour-capable writer (a terminal) a style request would put
+    // an escape sequence into the line
+    ensure!(w.styles().is_empty(), "C12:style-request", "the JSON encoder asked the writer for {} style change(s): on a terminal the line would carry escape sequences", w.styles().len());
     let bytes = w.bytes();
     // (a) exactly one line
     ensure!(bytes.last() == Some(&b'\n'), "C12:no-trailing-newline", "output does not end with a newline: {:?}", String::from_utf8_lossy(&bytes));
@@ -453,7 +470,9 @@ fn check_on_thread(case: &Case, obs: &mut Obs, thread_name: Option<&str>) -> Cas
                 .iter()
                 .map(|(k, v)| (k.clone(), if let J::Str(s) = v { s.clone() } else { format!("<non-string {:?}>", v) }))
                 .collect();
-            ensure!(got == want_mdc && m.len() == want_mdc.len(), "C12:field:mdc", "mdc is {:?}, expected {:?}", m, want_mdc);
+            let mut with_late_entry = want_mdc.clone();
+            with_late_entry.insert(LATE_MDC.0.to_string(), LATE_MDC.1.to_string());
+            ensure!((got == want_mdc && m.len() == want_mdc.len()) || (late && got == with_late_entry && m.len() == 1), "C12:field:mdc", "mdc is {:?}, expected {:?}", m, want_mdc);
         }
         other => return fail("C12:field:mdc", format!("mdc is {:?}", other)),
     }
@@ -543,7 +562,7 @@ pub fn replay(part: &str, case: serde_json::Value) -> Option<CaseResult> {
 pub fn meta() -> EvidenceMeta {
     EvidenceMeta {
         level: "exploration",
-        rule: "cases = generated records (5 levels; message in 1-4 pieces; strings biased towards quote, backslash, slash, U+0000-001F, U+007F, U+0085, U+2028/9, non-BMP, combining marks, arbitrary chars, and >=1 KiB repetitions; optional fields present/absent; MDC maps of 0-5 entries with such keys/values; main or named thread; scripted short writes); oracle = output is exactly one line (final newline, no byte < 0x20 before it), parses with the harness's own strict RFC 8259 parser (rejects raw controls, duplicate keys, trailing garbage) and with serde_json, every documented field equals the record's value exactly, absent optional fields are omitted, time is RFC 3339 inside the encode bracket, no undocumented key; In 20% of the messages every character is delivered on its own (the way char arguments arrive); in 30% of the cases the same thread first encodes a record whose MDC holds the same bytes with every key/value boundary moved by one character. Text fields may hold one uninterrupted plain run of 8-20 kB; the encoder is built by JsonEncoder::new(), Default::default() or the kind: json deserializer; the sink may answer write calls with ErrorKind::Interrupted. non-trivial = some string needs escaping or an optional field is absent; distinct = FNV hash of the case".into(),
+        rule: "cases = generated records (5 levels; message in 1-4 pieces; strings biased towards quote, backslash, slash, U+0000-001F, U+007F, U+0085, U+2028/9, non-BMP, combining marks, arbitrary chars, and >=1 KiB repetitions; optional fields present/absent; MDC maps of 0-5 entries with such keys/values; main or named thread; scripted short writes); oracle = output is exactly one line (final newline, no byte < 0x20 before it), parses with the harness's own strict RFC 8259 parser (rejects raw controls, duplicate keys, trailing garbage) and with serde_json, every documented field equals the record's value exactly, absent optional fields are omitted, time is RFC 3339 inside the encode bracket, no undocumented key; In 20% of the messages every character is delivered on its own (the way char arguments arrive); in 30% of the cases the same thread first encodes a record whose MDC holds the same bytes with every key/value boundary moved by one character. The first message argument may insert an MDC entry while it is being formatted (the line stays one well-formed object); no style request may reach the writer. Text fields may hold one uninterrupted plain run of 8-20 kB; the encoder is built by JsonEncoder::new(), Default::default() or the kind: json deserializer; the sink may answer write calls with ErrorKind::Interrupted. non-trivial = some string needs escaping or an optional field is absent; distinct = FNV hash of the case".into(),
         assumptions: vec!["'control character' = U+0000-U+001F (JSON's own definition); U+007F/U+0085/U+2028/9 are legal raw and only counted".into()],
         mutants_caught: vec![],
     }
